@@ -194,6 +194,42 @@ pub fn run(ctx: &Ctx) -> Rep {
     });
     let (r, xs) = merge_states(s);
     rep.merge(r);
+
+    // ---- two-call histories: a card right after a word, a word right after a card -----------------------
+    // The filter must be a function of its argument alone. For every word w of the selected blocks and
+    // every card c the calls run as  w, c1, w, c2, ... w, c52  with every result checked, so both
+    // (w then c) and (c then w) are adjacent. thorough: all 2^32 words x 52 cards in the fast leg (4.5e11 calls,
+    // ~6.5 min), every 8th block in the checked leg; quick: a seeded 1-in-64 of the blocks (1-in-512 checked).
+    let cards = model::words52();
+    let hist_stride: u32 = if ctx.leg == "checked" { ctx.pick(1, 512, 8) as u32 } else { ctx.pick(1, 64, 1) as u32 };
+    let hist_off: u32 = (ctx.seed % hist_stride as u64) as u32;
+    let hblocks: Vec<u32> = blocks.iter().copied().filter(|b| ctx.smoke() || b % hist_stride == hist_off).collect();
+    let sh = par_run(ctx, hblocks.len(), mk, |st, bi| {
+        let hi = hblocks[bi] << 16;
+        let top = if ctx.smoke() { 0x3F } else { 0xFFFF };
+        for lo in 0..=top {
+            let w = hi | lo;
+            let want_w = if model_card_index(w).is_some() { w } else { 0 };
+            st.cur[0] = w;
+            st.cur_len = 1;
+            st.cur_what = "filter histories";
+            for (ci, &c) in cards.iter().enumerate() {
+                let a = CardNumber::filter(w);
+                let b = CardNumber::filter(c);
+                if a != want_w {
+                    let prev = if ci == 0 { w } else { cards[ci - 1] };
+                    st.rep.violation("the card filter gives the same answer whatever was filtered before", "CardNumber::filter after CardNumber::filter", Input::Words(vec![prev, w]), format!("{:#010x}", want_w), format!("{:#010x} right after filtering {:#010x}", a, prev));
+                }
+                if b != c {
+                    st.rep.violation("the card filter gives the same answer whatever was filtered before", "CardNumber::filter after CardNumber::filter", Input::Words(vec![w, c]), format!("{:#010x}", c), format!("{:#010x} right after filtering {:#010x}", b, w));
+                }
+            }
+            st.rep.evaluations += 104;
+        }
+        st.rep.add("two_call_filter_histories", (top as u64 + 1) * 104);
+    });
+    let (rh, _) = merge_states(sh);
+    rep.merge(rh);
     let passed: u64 = xs.iter().map(|x| x.passed).sum();
     let swept: u64 = xs.iter().map(|x| x.swept).sum();
     rep.add("words_swept_through_the_filter", swept);
@@ -207,7 +243,7 @@ pub fn run(ctx: &Ctx) -> Rep {
         rep.exhaustive = Some(true);
     }
     rep.rule = "all 52 named constants, the 52 deck entries, all 14 x 5 rank/suit member pairs through create, 16 field/character accessors on each of the 52 cards, \
-                and all 2^32 words through both filter entry points against an O(1) decode-and-rebuild membership test; distinct = words + constants + pairs"
+                and all 2^32 words through both filter entry points against an O(1) decode-and-rebuild membership test; two-call histories (word then card, card then word) for every card and every word of a seeded 1-in-64 of the 2^16-word blocks (thorough: every block in the fast leg); distinct = words + constants + pairs"
         .to_string();
     rep
 }
@@ -217,6 +253,7 @@ pub fn replay(_ctx: &Ctx, inp: &Input, _clause: &str) -> Rep {
     let mut st = St { rep: Rep::new(), x: mk(), cur: [0; 8], cur_len: 0, cur_what: "" };
     let r = drive::guard(|| match inp {
         Input::Words(v) if !v.is_empty() => {
+            // in the recorded order (a two-word witness is a call history)
             for &w in v {
                 check_filter(&mut st, w);
             }
